@@ -28,8 +28,25 @@ Theorem C10_started_le_M_before_fix_refuted :
   exists es s, run_ev_old (init 5 (Some 2) [1]) es = Some s /\ started s = 5.
 Proof. exact started_le_M_before_fix_refuted. Qed.
 
+(* the stop condition before the fix of _task_callback counted a slot handed to a loop as an execution under way: with M-1
+   executions finished and the M-th message in a granted loop's hands it said "stop" (the loop, cancelled, gave the message
+   back: M-1 executions - observable with a consumer whose unpause() is a round trip) *)
+Theorem C10_old_stop_condition_fires_early :
+  exists es s, run_ev (init 1 (Some 2) [1]) es = Some s /\ started s = 1 /\ processed s = 1 /\
+               get_loop 1 (loops s) = Some (mkLoop 1 (LGranted 2) true) /\ max_tasks_hit s = true /\ stop s = false.
+Proof. exact old_stop_condition_fires_early. Qed.
+
+Theorem C10_last_allowed_message_is_started :
+  exists s, run_ev (init 1 (Some 2) [1])
+              [EvEnqueue 1 1; EvEnqueue 1 2; EvDeliver 1 1; EvAcquireFast 1; EvSpawn 1; EvDeliver 1 2; EvPause 1; EvTaskDone 1;
+               EvUnpause 1; EvSpawn 1; EvTaskDone 2] = Some s
+            /\ started s = 2 /\ processed s = 2 /\ stop s = true.
+Proof. exact last_allowed_message_is_started. Qed.
+
 Print Assumptions C10_started_le_M.
 Print Assumptions C10_stop_after_M.
 Print Assumptions C10_counting.
 Print Assumptions C10_surplus_returned.
 Print Assumptions C10_started_le_M_before_fix_refuted.
+Print Assumptions C10_old_stop_condition_fires_early.
+Print Assumptions C10_last_allowed_message_is_started.
